@@ -29,7 +29,7 @@ ANCHORS = ["aiomysensors.model.message:MessageSchema.to_dict", "aiomysensors.mod
 PLAIN = {"node": ["0", "1", "255"], "child": ["0", "7", "255"], "cmd": ["0", "1", "2", "3", "4"],
          "ack": ["0", "1"], "type": ["0", "3", "4", "6", "49", "-5", "99999999999999999999"]}
 ORDER = ["node", "child", "cmd", "ack", "type"]
-PAYLOADS = ["", "5", "a;b", " x", ";"]
+PAYLOADS = ["", "5", "a;b", " x", ";", "a\rb", "l1\u2028l2"]
 
 
 def classify_violation(line: str, verdict: dict, outcome: tuple) -> tuple[str, str] | None:
@@ -148,7 +148,7 @@ def enumerate_lines(max_nonplain: int):
             pools = [nonplain[name] if i in positions else PLAIN[name] for i, name in enumerate(ORDER)]
             for combo in itertools.product(*pools):
                 head = ";".join(combo)
-                for payload in (PAYLOADS if k == 0 else PAYLOADS[:2]):
+                for payload in (PAYLOADS if k == 0 else PAYLOADS[:2] + PAYLOADS[5:6]):
                     yield head + ";" + payload
                 if k <= 1:
                     yield head + ";p;q;r"  # 8 fields
